@@ -8,6 +8,7 @@ import (
 	"fmt"
 	"io"
 	"log/slog"
+	"net"
 	"net/http"
 	"reservoir/cache"
 	"reservoir/config"
@@ -305,17 +306,35 @@ func (p *Proxy) handleHTTP(r responder.Responder, proxyReq *http.Request) error 
 	return p.processRequest(r, proxyReq, key, clientHd)
 }
 
+// A connection whose first bytes have already been read by somebody else and are handed back here.
+type prefixedConn struct {
+	net.Conn
+	reader io.Reader
+}
+
+func (c *prefixedConn) Read(p []byte) (int, error) {
+	return c.reader.Read(p)
+}
+
 func (p *Proxy) handleCONNECT(r responder.Responder, proxyReq *http.Request) error {
 	slog.Info("Handling CONNECT request", "url", proxyReq.URL, "remote_addr", proxyReq.RemoteAddr)
 
 	metrics.Global.Requests.HTTPSProxyRequests.Increment()
 
-	clientConn, _, err := r.Hijack()
+	clientConn, buffered, err := r.Hijack()
 	if err != nil {
 		r.WriteError("Unable to take over socket.", http.StatusInternalServerError)
 		return err
 	}
 	defer clientConn.Close() // Ensure we always close the hijacked connection
+
+	if buffered != nil && buffered.Reader.Buffered() > 0 {
+		// A client need not wait for our 200 before it starts its TLS handshake: what it sent right behind
+		// the CONNECT request (the ClientHello) sits in net/http's read buffer, not on the socket any more.
+		// Read that first, or the handshake waits for ever for bytes that were already delivered.
+		pending := io.LimitReader(buffered.Reader, int64(buffered.Reader.Buffered()))
+		clientConn = &prefixedConn{Conn: clientConn, reader: io.MultiReader(pending, clientConn)}
+	}
 
 	intermediateResponder := responder.NewRawHTTPResponder(clientConn)
 
